@@ -217,17 +217,24 @@ impl Cpu {
     /// Turn the RFLAGS overlay of hook H2 on/off: the value read by `rflags::read_raw` shows the
     /// emulated IF.
     pub fn set_if_overlay(&mut self, on: bool) {
+        self.set_flags_overlay(on, 0, 0);
+    }
+    /// Overlay the emulated IF plus arbitrary other bits (`noise_mask`/`noise_value`, bit 9 excluded)
+    /// on the value `rflags::read_raw` returns.
+    pub fn set_flags_overlay(&mut self, on: bool, noise_mask: u64, noise_value: u64) {
         use x86_64::registers::rflags::verif_hooks::{MASK, VALUE};
         self.if_overlay = on;
-        MASK.store(if on { 1 << 9 } else { 0 }, Ordering::Relaxed);
-        VALUE.store(if self.if_flag { 1 << 9 } else { 0 }, Ordering::Relaxed);
+        let nm = if on { noise_mask & !(1 << 9) } else { 0 };
+        MASK.store(if on { (1 << 9) | nm } else { 0 }, Ordering::Relaxed);
+        VALUE.store((if self.if_flag { 1 << 9 } else { 0 }) | (noise_value & nm), Ordering::Relaxed);
         fence();
     }
     pub fn set_if(&mut self, v: bool) {
         use x86_64::registers::rflags::verif_hooks::VALUE;
         self.if_flag = v;
         if self.if_overlay {
-            VALUE.store(if v { 1 << 9 } else { 0 }, Ordering::Relaxed);
+            let old = VALUE.load(Ordering::Relaxed);
+            VALUE.store((old & !(1 << 9)) | if v { 1 << 9 } else { 0 }, Ordering::Relaxed);
         }
         fence();
     }
